@@ -114,6 +114,7 @@ CHECKS = {
     },
     "C10": {
         "pkg": "./checks/c10",
+        "race": True,
         "level": "fault_enumeration",
         "assumptions": [
             "components are tgen programs (generated code incl. nested calls, child blocks, the component parameter); templ.Join / templ.Flush wrappers are covered by C13's call trees, not here",
